@@ -353,6 +353,13 @@ func runC08(c *Ctx) {
 	r.Assumptions = []string{"unspecified (counted, never judged): the server's DONE missing but supplied by the library, a non-final DONE in encrypted round 1, extra packages before the round-2 acknowledgement or after the final DONE, a single all-zero capability type", "a zero-length nonce is a NULL parameter and not generated as valid script (a conforming server sends a nonce)", "missing packages are detected at context expiry: contexts of 400 ms, structural verdict after a 15 s watchdog"}
 	if c.Replay != nil {
 		var wc c08WaitCase
+		if json.Unmarshal(c.Replay, &wc) == nil && wc.Family == "wait" && wc.Kind == "slow-reply" {
+			if sc, ok := c08WaitScripts()[wc.Name]; ok {
+				wc.Script = sc
+			}
+			c08SlowReply(c, wc)
+			return
+		}
 		if json.Unmarshal(c.Replay, &wc) == nil && wc.Family == "wait" {
 			if sc, ok := c08WaitScripts()[wc.Name]; ok {
 				wc.Script = sc
